@@ -27,7 +27,7 @@ ASSUMPTIONS = [
     "end-to-end cases: language semantics as implemented in polarmon/ref/engine.py; central moments / cumulants by the textbook formulas",
     "n ranges over s+1..s+12 (plus the identity test in the ring of exponential polynomials for direct cases)",
 ]
-TIMEOUT = {"quick": 60, "thorough": 90}
+TIMEOUT = {"quick": 45, "thorough": 90}
 DEADLINE = {"quick": 75, "thorough": 1100}
 MIN_DECIDING = {"quick": 60, "thorough": 600}
 NDIRECT = {"quick": 170, "thorough": 3200}
@@ -41,17 +41,10 @@ def generate(seed, tier):
         cs = K.harness_seed(seed, ID, i)
         cases.append(CF.gen_direct(cs, tier, allow_alg=True, rational_share=0.65))
     cli = CF.gen_cli(lambda i: K.harness_seed(seed, ID, i), NCLI[tier], tier)
-    # interleave the (slower) CLI cases so that the deadline does not cut one workload off
-    out = []
-    step = max(1, len(cases) // max(1, len(cli)))
-    ci = 0
-    for i, c in enumerate(cases):
-        out.append(c)
-        if i % step == step - 1 and ci < len(cli):
-            out.append(cli[ci])
-            ci += 1
-    out += cli[ci:]
-    return out
+    for c in cases:
+        if c["d"] != 0:
+            c["timeout"] = 40 if tier == "quick" else 60      # sympy's EX-domain groebner may run for minutes
+    return CF.order_cases(cases, cli)
 
 
 def worker_init(tier):
@@ -106,10 +99,10 @@ def run_direct_case(case, tier):
     except ValueError as e:
         res.update(verdict="inconclusive", reason="oracle-unsupported", detail=str(e)[:200])
         return res
-    diag = None
     n0 = s + 1
     value_rows = {n: [ep.eval(n) for ep in eps] for n in range(n0, n0 + NPOINTS)}
     shown = []
+    failing = []
     for poly, expr in polys:
         bad_n = None
         for n in range(n0, n0 + NPOINTS):
@@ -133,18 +126,20 @@ def run_direct_case(case, tier):
                 res.update(verdict="inconclusive", reason="oracle-disagreement",
                            detail=f"own arithmetic: {expr} -> {fld.show(v)} at n={n}; sympy confirmation: {conf}")
                 return res
-            if diag is None:
-                diag = CF.lattice_diagnosis()
-            res["violations"].append({
-                "kind": "invariant-does-not-hold", "key": CF.attribute(diag), "n": n,
-                "detail": (f"reported invariant {expr} = 0 evaluates to {fld.show(v)} at n={n} (special cases end at n={s}) for "
-                           + "; ".join(f"{nm} = {ep.show()}" for nm, ep in zip(names, eps))
-                           + f" | exponent lattice returned for bases {diag['bases']}: {diag['lattice']}, vectors violating prod b^v=1: "
-                           f"{diag['bad_vectors']}, rational kernel non-integral: {diag['nonintegral']}"),
-                "invariant": str(expr), "value": fld.show(v), "lattice": diag["lattice"], "bad_vectors": diag["bad_vectors"],
-            })
+            failing.append((expr, n, v))
         if len(shown) < 3:
             shown.append(str(expr)[:160])
+    if failing:
+        key, diag, fixed = CF.diagnose_and_key(
+            names, lambda rec: all(CF.poly_eval_ep(fld, q, eps).is_zero() for q, _ in CF.basis_to_polys(rec, names, fld)))
+        for expr, n, v in failing[:4]:
+            res["violations"].append({
+                "kind": "invariant-does-not-hold", "key": key, "n": n,
+                "detail": (f"reported invariant {expr} = 0 evaluates to {fld.show(v)} at n={n} (special cases end at n={s}) for "
+                           + "; ".join(f"{nm} = {ep.show()}" for nm, ep in zip(names, eps))
+                           + " | " + CF.diag_text(diag, fixed)),
+                "invariant": str(expr), "value": fld.show(v), "lattice": diag["lattice"], "bad_vectors": diag["bad_vectors"],
+            })
     nonconst = sum(1 for ep in eps if not ep.is_constant())
     res["nontrivial"] = bool(polys) and nonconst >= 1
     res["verdict"] = "violated" if res["violations"] else "held"
@@ -190,7 +185,10 @@ def run_cli_case(case, tier):
     N = n0 + NPOINTS - 1
     try:
         table = CF.oracle_goal_table(case["text"], case.get("params", {}), specs, N,
-                                     max_states=20000 if tier == "quick" else 100000)
+                                     max_states=4000 if tier == "quick" else 40000, min_n=n0 + 2)
+        if len(table[0]) - 1 < N:
+            N = len(table[0]) - 1          # reference engine's state cap: fewer n are compared
+            res["features"].append("cli:reference-truncated")
     except CF.CliSkip as e:
         res.update(verdict="inconclusive", reason=e.reason, detail=e.detail)
         return res
@@ -215,25 +213,33 @@ def run_cli_case(case, tier):
                         cf_agree = False
     except (ValueError, ZeroDivisionError):
         cf_agree = None
-    diag = None
+    failing = []
     for poly, expr in polys:
         for n in range(n0, N + 1):
             res["comparisons"] += 1
             v = CF.poly_eval(fld, poly, [(table[i][n], F(0)) for i in range(len(gids))])
             if not fld.is_zero(v):
-                if diag is None:
-                    diag = CF.lattice_diagnosis()
-                key = CF.attribute(diag) if cf_agree is not False else None
-                res["violations"].append({
-                    "kind": "printed-invariant-does-not-hold" if cf_agree is not False else "invariant-from-wrong-closed-form",
-                    "key": key, "n": n,
-                    "detail": (f"CLI printed '{expr} = 0' but the reference values "
-                               + ", ".join(f"{g}={table[i][n]}" for i, g in enumerate(gids)) + f" at n={n} give {v[0]} "
-                               f"(special cases end at n={s}; closed forms agree with reference: {cf_agree}; lattice for bases "
-                               f"{diag['bases']}: {diag['lattice']}, bad vectors {diag['bad_vectors']}, non-integral kernel {diag['nonintegral']})"),
-                    "invariant": str(expr), "value": str(v[0]),
-                })
+                failing.append((expr, n, v))
                 break
+    if failing:
+        def sound(rec):
+            for q, _ in CF.basis_to_polys(rec, gids, fld, subs=subs):
+                for n in range(n0, N + 1):
+                    if not fld.is_zero(CF.poly_eval(fld, q, [(table[i][n], F(0)) for i in range(len(gids))])):
+                        return False
+            return True
+        key, diag, fixed = CF.diagnose_and_key(gids, sound)
+        if cf_agree is False:
+            key = None
+        for expr, n, v in failing[:4]:
+            res["violations"].append({
+                "kind": "printed-invariant-does-not-hold" if cf_agree is not False else "invariant-from-wrong-closed-form",
+                "key": key, "n": n,
+                "detail": (f"CLI printed '{expr} = 0' but the reference values "
+                           + ", ".join(f"{g}={table[i][n]}" for i, g in enumerate(gids)) + f" at n={n} give {v[0]} "
+                           f"(special cases end at n={s}; closed forms agree with reference: {cf_agree}) | " + CF.diag_text(diag, fixed)),
+                "invariant": str(expr), "value": str(v[0]),
+            })
     nonconst = sum(1 for row in table if len(set(row[n0:])) > 1)
     res["nontrivial"] = bool(polys) and nonconst >= 1
     res["verdict"] = "violated" if res["violations"] else "held"
